@@ -126,6 +126,7 @@ def main(argv=None):
     a = ap.parse_args(argv)
     pid = a.property
     seed = int(os.environ.get('VERIF_SEED', '0') or 0)
+    os.environ.setdefault('VERIF_XCHECK', '300' if a.tier == 'thorough' else '3000')
     t0 = time.time()
     log = lambda *x: print('[%s %6.1fs]' % (pid, time.time() - t0), *x, flush=True)
     try:
